@@ -347,6 +347,11 @@ func ReadFile(name string) ([]byte, error) {
 	ev, ft := f.event("readfile", p)
 	if ft != nil && !isContentFault(ft.Kind) {
 		ev.Res = ft.Kind
+		if ft.Kind == "eisdir" {
+			// like the real os.ReadFile on a directory: the open succeeds, the read fails, and what is
+			// returned besides the error is an empty but non-nil slice
+			return []byte{}, pathErr("read", name, syscall.EISDIR)
+		}
 		return nil, pathErr("open", name, faultErr(ft))
 	}
 	_, n, err := f.resolve(name, true)
@@ -356,12 +361,13 @@ func ReadFile(name string) ([]byte, error) {
 	}
 	if n.dir {
 		ev.Res = "eisdir"
-		return nil, pathErr("read", name, syscall.EISDIR)
+		return []byte{}, pathErr("read", name, syscall.EISDIR)
 	}
 	data, cerr := f.content(p, n.data, ft)
 	if cerr != nil {
+		// a read error in mid-file: os.ReadFile hands back what it had read so far together with the error
 		ev.Res = "eio-read"
-		return nil, pathErr("read", name, cerr)
+		return append([]byte{}, data...), pathErr("read", name, cerr)
 	}
 	ev.Res = "ok:" + strconv.Itoa(len(data))
 	return append([]byte(nil), data...), nil
